@@ -12,7 +12,8 @@
    All statements are for ALL trees (no depth bound), all paths, all histories. *)
 From Coq Require Import ZArith NArith List String Ascii Bool.
 From Verif Require Import Util Ints StrAnyMap StrAnyMapSpec StrAnyMapAbs
-  StrAnyMapNav StrAnyMapSet StrAnyMapCopy StrAnyMapRefuted.
+  StrAnyMapNav StrAnyMapSet StrAnyMapCopy StrAnyMapRefuted
+  StrAnyMapStore StrAnyMapHeap StrAnyMapHeapFrame.
 Import ListNotations.
 Local Open Scope string_scope.
 
@@ -208,6 +209,123 @@ Print Assumptions C18_set_never_panics.
 Theorem C18_copy_never_panics : forall x pk, snd (copy true x) <> Panic pk.
 Proof. exact copy_never_panics. Qed.
 Print Assumptions C18_copy_never_panics.
+
+(* ================= nested maps shared between trees and holders ================= *)
+(* Go maps are references: Get hands out the very map a tree holds and Set
+   stores a map as it is, so one map object can be part of several trees and be
+   held by the caller.  Model/StrAnyMapHeap.v is the model of the same methods
+   over a store of map objects ([obj st m] = the entries of object m, a node is
+   a leaf or [SMap form m]); [view fuel st y] is the tree holder y sees,
+   [reaches fuel st y a] says that y's references lead to object a (or out of
+   the store).  Spec/StrAnyMapStore.v is the property's text on such stores.
+   All statements are for ALL stores (cyclic ones included), paths and holders. *)
+
+(* Reset empties the map in place: exactly the object its argument holds ... *)
+Theorem C18_share_reset_exact : forall st x, h_reset st x = (s_reset st x, Ok tt).
+Proof. exact h_reset_is_spec. Qed.
+Print Assumptions C18_share_reset_exact.
+
+Theorem C18_share_reset_empties_addressed : forall st h a, a < List.length st ->
+  obj (fst (h_reset st (SMap h a))) a = [].
+Proof. exact heap_reset_empties. Qed.
+Print Assumptions C18_share_reset_empties_addressed.
+
+(* ... and no other object - in particular not the nested maps of the emptied one *)
+Theorem C18_share_reset_frame : forall st h a m, m <> a ->
+  obj (fst (h_reset st (SMap h a))) m = obj st m.
+Proof. exact reset_frame. Qed.
+Print Assumptions C18_share_reset_frame.
+
+(* so whoever does not hold the addressed object (directly or nested) sees what it saw *)
+Theorem C18_share_reset_holders : forall fuel st h a y,
+  reaches fuel st y a = false ->
+  view fuel (fst (h_reset st (SMap h a))) y = view fuel st y.
+Proof. exact reset_holder_frame. Qed.
+Print Assumptions C18_share_reset_holders.
+
+(* Set writes one object: the one the path addresses ([s_target]); every other
+   object that existed is untouched (objects made for intermediate maps are new) *)
+Theorem C18_share_set_frame : forall p st x v m, m < List.length st -> s_target st x p <> Some m ->
+  obj (fst (h_set st p x v)) m = obj st m.
+Proof. exact set_frame. Qed.
+Print Assumptions C18_share_set_frame.
+
+Theorem C18_share_set_holders : forall fuel st p x v a y,
+  s_target st x p = Some a -> reaches fuel st y a = false ->
+  view fuel (fst (h_set st p x v)) y = view fuel st y.
+Proof. exact set_holder_frame. Qed.
+Print Assumptions C18_share_set_holders.
+
+(* Set is the specification's [s_set] (the addressed entry created or replaced,
+   a chain of new maps where keys are absent, a map value stored as the object
+   it is) whenever the path does not run through the same map object twice *)
+Theorem C18_share_set_exact : forall p st x v, p <> [] ->
+  NoDup (path_objs st p x) -> Forall (fun m => m < List.length st) (path_objs st p x) ->
+  match s_set st x p (sstored v) with
+  | SSetOk st' => h_set st p x v = (st', Ok tt)
+  | SSetNonMap => h_set st p x v = (st, Err EUnsupported)
+  end.
+Proof. exact set_is_spec. Qed.
+Print Assumptions C18_share_set_exact.
+
+(* CopyTo writes the destination's object only ... *)
+Theorem C18_share_copyto_frame : forall st src dst m, m < List.length st ->
+  (forall h, dst <> SMap h m) ->
+  obj (fst (h_copy_to st src dst)) m = obj st m.
+Proof. exact copy_to_frame. Qed.
+Print Assumptions C18_share_copyto_frame.
+
+Theorem C18_share_copyto_holders : forall fuel st src hd md y,
+  reaches fuel st y md = false ->
+  view fuel (fst (h_copy_to st src (SMap hd md))) y = view fuel st y.
+Proof. exact copy_to_holder_frame. Qed.
+Print Assumptions C18_share_copyto_holders.
+
+(* ... and fills it with fresh nested maps: nothing that existed is reachable through its entries *)
+Theorem C18_share_copyto_fresh : forall st hs ms hd md fuel a,
+  hd <> HVal -> md < List.length st -> a < List.length st ->
+  forall kv, In kv (obj (fst (h_copy_to st (SMap hs ms) (SMap hd md))) md) ->
+  reaches fuel (fst (h_copy_to st (SMap hs ms) (SMap hd md))) (snd kv) a = false.
+Proof. exact copy_to_fresh. Qed.
+Print Assumptions C18_share_copyto_fresh.
+
+(* Copy changes no object and returns a map that reaches nothing that existed *)
+Theorem C18_share_copy_frame : forall st x m, m < List.length st ->
+  obj (fst (fst (h_copy st x))) m = obj st m.
+Proof. exact copy_frame. Qed.
+Print Assumptions C18_share_copy_frame.
+
+Theorem C18_share_copy_holders : forall fuel st x y,
+  reaches fuel st y (List.length st) = false ->
+  view fuel (fst (fst (h_copy st x))) y = view fuel st y.
+Proof. exact copy_holder_frame. Qed.
+Print Assumptions C18_share_copy_holders.
+
+Theorem C18_share_copy_fresh : forall st x fuel a, a < List.length st ->
+  reaches fuel (fst (fst (h_copy st x))) (snd (fst (h_copy st x))) a = false.
+Proof. exact copy_fresh_heap. Qed.
+Print Assumptions C18_share_copy_fresh.
+
+(* non-vacuity: tree A = {a: *{b: 15}}, tree B = {x: 1}; the nested map of A is
+   obtained with Get, stored into B, then A is reset: A is empty, B still reads
+   the leaf through "moved", and the path hypothesis of C18_share_set_exact holds *)
+Definition share_demo : store :=
+  [ [("b", SLeaf (LInt KInt 15))]; [("a", SMap HPtr 0)]; [("x", SLeaf (LInt KInt 1))] ].
+
+Example C18_share_demo :
+  h_get share_demo ["a"] (SMap HVal 1) = Ok (Some (SMap HPtr 0)) /\
+  NoDup (path_objs share_demo ["moved"] (SMap HVal 2)) /\
+  (let st1 := fst (h_set share_demo ["moved"] (SMap HVal 2) (SMap HPtr 0)) in
+   let st2 := fst (h_reset st1 (SMap HVal 1)) in
+   reaches 4 st1 (SMap HVal 2) 1 = false /\
+   view 4 st2 (SMap HVal 1) = TMap HVal [] /\
+   view 4 st2 (SMap HVal 2) =
+     TMap HVal [("x", TLeaf (LInt KInt 1)); ("moved", TMap HPtr [("b", TLeaf (LInt KInt 15))])] /\
+   h_length st2 ["moved"] (SMap HVal 2) = Ok (Some 1%Z)).
+Proof.
+  split; [reflexivity|]. split; [repeat constructor; simpl; tauto|].
+  vm_compute. repeat split; reflexivity.
+Qed.
 
 (* ================= non-vacuity ================= *)
 (* the shape of /repo's own test value: map -> map -> map, map -> *map -> **map *)
